@@ -29,14 +29,16 @@ def run(tier, seed):
             asts.append(ast)
     progs = runner.compile_programs(items, want=('machine', 'codegen'))
     pairs = [(p, a) for p, a in zip(progs, asts) if p.ok]
+    c_only = [p for p, a in pairs if a.get('c_only')]
+    pairs = [(p, a) for p, a in pairs if not a.get('c_only')]
     st, kinds, cases = c01.run_conform(chk, pairs, 8 if quick else 12, 1600 if quick else 9000, 'end')
     from props import c06
-    cs = c06.c_stage(chk, [p for p, a in pairs][::3 if quick else 2], rng, 2, 'EOF program')
+    cs = c06.c_stage(chk, [p for p, a in pairs][::3 if quick else 2] + c_only[::2 if quick else 1], rng, 2, 'EOF program')
     chk.coverage = {
         'states': st['states'] + cs['states'], 'transitions': st['transitions'] + cs['transitions'], 'traces_validated_against_impl': len(pairs) + cs['accepted'],
         'c_stage': cs,
         'samples': [{'source': c['p'].src, 'args': c['p'].args, 'symbols': c['syms']} for c in cases[:2]],
-        'programs_accepted': len(pairs), 'programs_generated': len(items), 'report_kinds': dict(kinds), 'exhaustive': False,
+        'programs_accepted': len(pairs) + len(c_only), 'bound_at_the_C_level_only': len(c_only), 'programs_generated': len(items), 'report_kinds': dict(kinds), 'exhaustive': False,
         'rule': '`end` in match / case / wait positions, in handlers, followed by actions and finish codes; every input up to the length bound over the symbol cells, followed by end()',
     }
     chk.assumptions = ['OP1/OP4: after a trailing lookahead-terminated construct, and with strict-done, end() may report FAIL where the program has logically ended (counted as OP1 reports)']
